@@ -31,8 +31,9 @@ func extractOpenAPIMain() (string, error) {
 				def = exprString(x.Rhs[0])
 			}
 		case *ast.IndexExpr:
-			if exprString(x.X) == "params" {
-				if bl, ok := x.Index.(*ast.BasicLit); ok {
+			// the key read from the parameter map: `params["format"]`, or `parseParameters(…)["format"]`
+			if bl, ok := x.Index.(*ast.BasicLit); ok && bl.Kind == token.STRING {
+				if exprString(x.X) == "params" || strings.HasPrefix(exprString(x.X), "parseParameters") {
 					paramKey, _ = strconv.Unquote(bl.Value)
 				}
 			}
@@ -41,9 +42,16 @@ func extractOpenAPIMain() (string, error) {
 				cc := c.(*ast.CaseClause)
 				val := ""
 				for _, st := range cc.Body {
+					// `format = V` or, in the early-return form, `return V`
 					if as, ok := st.(*ast.AssignStmt); ok && len(as.Rhs) == 1 {
 						val = exprString(as.Rhs[0])
 					}
+					if rs, ok := st.(*ast.ReturnStmt); ok && len(rs.Results) == 1 {
+						val = exprString(rs.Results[0])
+					}
+				}
+				if cc.List == nil && val != "" && def == "" {
+					def = val // `default: return V`
 				}
 				for _, e := range cc.List {
 					if bl, ok := e.(*ast.BasicLit); ok {
@@ -109,6 +117,7 @@ func extractOpenAPIMain() (string, error) {
 	}
 	pairSplit, kvSplit, storeKey, storeValue := "", "", "", ""
 	kvLimit := -1
+	cutKey, cutVal := "", ""
 	limits := map[string]int{}
 	ast.Inspect(pp.Body, func(n ast.Node) bool {
 		switch x := n.(type) {
@@ -126,6 +135,15 @@ func extractOpenAPIMain() (string, error) {
 			switch exprString(x.Fun) {
 			case "strings.Split":
 				pairSplit = srcOf(x)
+			case "strings.SplitSeq":
+				// the iterator form of the same cut
+				pairSplit = strings.Replace(srcOf(x), "strings.SplitSeq(", "strings.Split(", 1)
+			case "strings.Cut":
+				// `k, v, found := strings.Cut(pair, "=")` is `strings.SplitN(pair, "=", 2)` with found = two pieces
+				if len(x.Args) == 2 {
+					kvSplit = "strings.SplitN(" + srcOf(x.Args[0]) + ", " + srcOf(x.Args[1]) + ", splitLimit)"
+					kvLimit = 2
+				}
 			case "strings.SplitN":
 				kvSplit = srcOf(x)
 				if len(x.Args) == 3 {
@@ -137,6 +155,11 @@ func extractOpenAPIMain() (string, error) {
 				}
 			}
 		case *ast.AssignStmt:
+			if len(x.Lhs) == 3 && len(x.Rhs) == 1 {
+				if c, ok := x.Rhs[0].(*ast.CallExpr); ok && exprString(c.Fun) == "strings.Cut" {
+					cutKey, cutVal = exprString(x.Lhs[0]), exprString(x.Lhs[1])
+				}
+			}
 			if len(x.Lhs) == 1 && len(x.Rhs) == 1 {
 				if ix, ok := x.Lhs[0].(*ast.IndexExpr); ok && exprString(ix.X) == "params" {
 					storeKey, storeValue = srcOf(ix.Index), srcOf(x.Rhs[0])
@@ -145,6 +168,11 @@ func extractOpenAPIMain() (string, error) {
 		}
 		return true
 	})
+	if cutKey != "" {
+		// the two results of Cut are the two pieces
+		storeKey = strings.ReplaceAll(storeKey, "("+cutKey+")", "(kv[0])")
+		storeValue = strings.ReplaceAll(storeValue, "("+cutVal+")", "(kv[1])")
+	}
 	if pairSplit == "" || kvSplit == "" || storeKey == "" || kvLimit < 0 {
 		return "", fmt.Errorf("parseParameters: expected strings.Split / strings.SplitN / params[k] = v, found split=%q cut=%q limit=%d store=%q", pairSplit, kvSplit, kvLimit, storeKey)
 	}
